@@ -27,12 +27,12 @@ MAP_W = [("set", 30), ("del", 14), ("insert", 5), ("setdefault", 5),
          ("pop", 5), ("popd", 3), ("popitem", 2), ("update", 4),
          ("clear", 0.5), ("get", 3), ("getd", 2), ("getitem", 4), ("in", 3),
          ("has_key", 2), ("len", 1), ("bool", 1), ("iter", 1), ("items", 1),
-         ("keys", 0.5), ("values", 0.5)]
+         ("keys", 0.5), ("values", 0.5), ("ctor", 1)]
 SET_W = [("add", 30), ("sinsert", 5), ("remove", 14), ("discard", 6),
          ("spop", 3), ("supdate", 4), ("clear", 0.5), ("ior", 2),
          ("iand", 1.5), ("isub", 2), ("ixor", 2), ("in", 4), ("has_key", 2),
          ("len", 1), ("bool", 1), ("iter", 1), ("keys", 1), ("sgetitem", 2),
-         ("isdisjoint", 1)]
+         ("isdisjoint", 1), ("ctor", 1)]
 
 
 class Gen(object):
@@ -156,7 +156,7 @@ class Gen(object):
             op = [name]
         elif name == "update":
             pairs = [[k, self.val()] for k in self.keylist(0, 5)]
-            op = [name, pairs, rng.choice(["list", "dict", "Bucket",
+            op = [name, pairs, rng.choice(["list", "dict", "gen", "Bucket",
                                            "BTree"])]
         elif name in ("get", "in", "has_key", "discard"):
             op = [name, self.key_for(rng.random() < 0.6, 0)]
@@ -181,6 +181,14 @@ class Gen(object):
                 # operands -- keep them duplicate-free
                 ks = list(dict.fromkeys(ks))
             op = [name, ks, form]
+        elif name == "ctor":
+            if self.mapping:
+                op = [name, [[k, self.val()] for k in self.keylist(0, 8)],
+                      rng.choice(["list", "dict", "gen", "Bucket", "BTree"])]
+            else:
+                op = [name, self.keylist(0, 8),
+                      rng.choice(["list", "tuple", "gen", "pyset", "Set",
+                                  "TreeSet"])]
         elif name == "sgetitem":
             n = len(self.model.d)
             op = [name, rng.randint(-n - 1, n)]
